@@ -62,6 +62,22 @@ func (b ObjectBuilder) Len() int {
 
 func (b ObjectBuilder) UserTypeNames() []string {
 	b.schema.CollectUserTypes()
+
+	// The types which have come with the properties (the unnamed types of the
+	// Path schemas, i.e. "@a | @b") mention user types too, whether the property
+	// that needs them is among the added ones or not.
+	for name, t := range b.schema.Inner.TypesList() {
+		if len(name) == 0 || name[0] == '@' || t.Schema == nil {
+			continue
+		}
+		s := jschema.New("", "")
+		s.Inner = t.Schema
+		s.CollectUserTypes()
+		for _, n := range s.UserTypesNamesUsed.Data() {
+			b.schema.UserTypesNamesUsed.Add(n)
+		}
+	}
+
 	return b.schema.UserTypesNamesUsed.Data()
 }
 
